@@ -309,7 +309,7 @@ func (vc *VC) inLocs(r Term, memName string, locs []locSpec) Term {
 // frameCheck: a store must go to a freshly allocated object or to a declared location.
 func (f *frame) frameCheck(addr Term, t types.Type, pos token.Pos, addrVal ssa.Value) {
 	vc := f.vc
-	if vc.con == nil || !vc.con.HasAssigns || vc.topFrame == nil {
+	if vc.con == nil || !vc.con.HasAssigns || vc.topFrame == nil || !vc.topFrame.safety {
 		return
 	}
 	// syntactic shortcut: address derived from an allocation of the function under contract
@@ -334,7 +334,7 @@ func (f *frame) frameCheck(addr Term, t types.Type, pos token.Pos, addrVal ssa.V
 // frameCheckLocs: what a callee may assign must be fresh or assignable by the function under contract.
 func (f *frame) frameCheckLocs(callee string, locs []locSpec, guard Term, pos token.Pos) {
 	vc := f.vc
-	if vc.con == nil || !vc.con.HasAssigns || vc.topFrame == nil || vc.pass != 2 {
+	if vc.con == nil || !vc.con.HasAssigns || vc.topFrame == nil || vc.pass != 2 || !vc.topFrame.safety {
 		return
 	}
 	for _, l := range locs {
@@ -733,6 +733,17 @@ selected:
 			cond := f.evalClause(r, envPre)
 			f.oblige("pre", fmt.Sprintf("%s requires %s", name, r.Text), nil, pos, Implies(sc.guard, cond))
 		}
+	}
+	if con.NoReturn {
+		// nothing after the call is reachable: its effects need not be modelled
+		f.reach = TFalse
+		nres := sig.Results().Len()
+		if nres == 1 {
+			return vc.zero(sig.Results().At(0).Type())
+		} else if nres > 1 {
+			return vc.freshConst(f.prefix+"_ret", vc.tupleInfo(sig.Results()).sort)
+		}
+		return Term{}
 	}
 	// havoc
 	if !con.Pure {
